@@ -387,6 +387,36 @@ func runOneAtATime(c Case) *h.Result {
 				return h.Fail("read-from-string :start %d :end %d differs on %q:\n   ReadString form %d: %s\n   got: %s", runes(c.Starts[i]), end, c.Text, i, want, ge)
 			}
 		}
+		// :start s :end e reads the text between the two bounds: for every e inside the form (a text that stops inside
+		// a token or a list, and the empty text for e = s) the outcome is the one of reading (subseq txt s e)
+		s0 := runes(c.Starts[i])
+		for e := s0; e <= runes(c.Ends[i]) && e <= s0+24; e++ {
+			bounded := ev.Eval(scope, bind(fmt.Sprintf("(multiple-value-list (read-from-string txt nil 'at-end :start %d :end %d))", s0, e)))
+			sub := ev.Eval(scope, bind(fmt.Sprintf("(multiple-value-list (read-from-string (subseq txt %d %d) nil 'at-end))", s0, e)))
+			evals += 2
+			if bounded.Kind == ev.Fault || sub.Kind == ev.Fault {
+				return h.Fail("read-from-string :start %d :end %d on %q: %s / on the subseq: %s", s0, e, c.Text, bounded, sub)
+			}
+			if bounded.Kind != sub.Kind {
+				return h.Fail("read-from-string :start %d :end %d on %q: %s, but reading (subseq txt %d %d): %s", s0, e, c.Text, bounded, s0, e, sub)
+			}
+			if bounded.Kind == ev.Value {
+				vb, _ := bounded.Val.(slip.List)
+				vs, _ := sub.Val.(slip.List)
+				if len(vb) != 2 || len(vs) != 2 {
+					return h.Fail("read-from-string :start %d :end %d on %q returned %s / %s", s0, e, c.Text, sx.Text(bounded.Val), sx.Text(sub.Val))
+				}
+				rb, rs := result{kind: "objects", objs: vb[:1], text: render(vb[:1])}, result{kind: "objects", objs: vs[:1], text: render(vs[:1])}
+				if !same(rb, rs) {
+					return h.Fail("read-from-string :start %d :end %d on %q reads %s, but (subseq txt %d %d) reads %s", s0, e, c.Text, rb, s0, e, rs)
+				}
+				pb, okb := vb[1].(slip.Fixnum)
+				ps, oks := vs[1].(slip.Fixnum)
+				if !(s0 > 0 && h.Excluded("rfs-start-whitespace")) && (!okb || !oks || int(pb) != int(ps)+s0) {
+					return h.Fail("read-from-string :start %d :end %d on %q reports position %s, reading (subseq txt %d %d) reports %s", s0, e, c.Text, sx.Text(vb[1]), s0, e, sx.Text(vs[1]))
+				}
+			}
+		}
 		p, ok := vals[1].(slip.Fixnum)
 		hi := len([]rune(c.Text))
 		if i+1 < nForms {
